@@ -91,14 +91,18 @@ func faults(w *rec.Writer, seed uint64) {
 	}
 	for round := 0; round < 2; round++ {
 		target := sg.GenWrite(r, p, rn.Present(), statf(w))
-		target.Mode = r.Intn(2)
+		if round == 1 {
+			target.Mode = r.Intn(2) // injected failures only below the command layer (it reads the model first)
+		}
 		if r.Chance(4, 5) {
 			target.OnDup, target.OnMiss = sg.OptIgnore, sg.OptIgnore
 		}
 		if round == 0 {
 			for k := 1; k <= 12; k++ {
 				op := target
-				op.Fault, op.BadConn = k, r.Chance(1, 3)
+				// database/sql retries a BEGIN that fails with ErrBadConn on a fresh connection, so that
+				// flavour is only injected inside the transaction
+				op.Fault, op.BadConn = k, k > 1 && r.Chance(1, 3)
 				tick++
 				op.Tick = tick
 				rn.Do(op, false)
